@@ -33,7 +33,7 @@ ASSUMPTIONS = [
     "'direct_pl' in operations_by_kind",
 ]
 PROBES = ["cost_pos_and_trade", "H2", "H3", "listed_hedge", "first_cost_disabled", "cost_none", "payoff_none",
-          "negative_price", "shock_before_pl", "multi_primary", "float64", "exact_repeat_position", "sign_flip", "compute_pnl", "pl_under_grad", "payoff_with_clauses"]
+          "negative_price", "shock_before_pl", "multi_primary", "float64", "exact_repeat_position", "sign_flip", "compute_pnl", "pl_under_grad", "payoff_with_clauses", "cost_changed_between_calls"]
 
 
 def generate(rng):
@@ -87,7 +87,12 @@ def generate(rng):
 
     sim_all()
     for _ in range(rng.randint(2, 7)):
-        k = rng.wchoice([("hedger_pl", 6), ("shock", 3), ("resim", 1), ("direct_pl", 3)])
+        k = rng.wchoice([("hedger_pl", 6), ("shock", 3), ("resim", 1), ("direct_pl", 3), ("change_cost", 2)])
+        if k == "change_cost":
+            # the user changes a cost rate between two evaluations (cost-sensitivity sweep): stock.cost = x / re-list
+            tgt = rng.choice([i for i in (hedge or ["p0"])])
+            ops.append({"op": "change_cost", "target": tgt, "cost": rng.choice([0.0, 1e-4, 2e-3, 0.01, 0.05])})
+            continue
         if k == "hedger_pl":
             which = rng.wchoice([("pl", 4), ("portfolio", 3), ("pnl", 1)])
             op = {"op": "hedger_pl", "which": which, "hedger": "h0", "derivative": "d0", "hedge": hedge,
@@ -257,6 +262,16 @@ def _execute(program, stats, hist):
                 stats.fault("F10_aliasing_resimulate")
             shocked = False
             hist.add(op="simulate", target=op["target"], n_paths=op["n_paths"])
+        elif name == "change_cost":
+            inst = world.instrument(op["target"])
+            if op["target"] in world.primaries:
+                inst.cost = op["cost"]
+            else:
+                from ..world import make_pricer
+                spec_l = world.spec_of("derivatives", op["target"])
+                inst.list(make_pricer(spec_l["listed"]["pricer"]), cost=op["cost"])
+            stats.probe("cost_changed_between_calls")
+            hist.add(op="change_cost", target=op["target"], cost=op["cost"])
         elif name == "hedger_pl":
             h = world.hedgers[op["hedger"]]
             d = world.derivatives[op["derivative"]]
